@@ -113,7 +113,7 @@ func (m *mdrv) settle() {
 	waitFor("reader handled lines", func() bool { return atomic.LoadInt64(&handled) >= s })
 }
 
-func (m *mdrv) Call(fn string, msg int) (ret string) {
+func (m *mdrv) Call(fn string, msg int, o pr.Opts) (ret string) {
 	switch fn {
 	case "OpenIn":
 		ret = errStr(m.in.Open())
@@ -133,19 +133,25 @@ func (m *mdrv) Call(fn string, msg int) (ret string) {
 		// everything written so far must have left the pipe before the helper is killed
 		m.settle()
 		ret = errStr(m.out.Close())
-	case "Listen":
+	case "Listen", "ListenOpts":
 		m.nL++
 		id := m.nL
+		var lo []midi.Option
+		if fn == "Listen" || o.Sysex {
+			lo = append(lo, midi.UseSysEx())
+		}
+		if fn == "Listen" || o.As {
+			lo = append(lo, midi.UseActiveSense())
+		}
+		if fn == "Listen" || o.Tc {
+			lo = append(lo, midi.UseTimeCode())
+		}
 		stop, err := midi.ListenTo(m.in, func(msg midi.Message, ts int32) {
-			var ch, key, vel uint8
-			k := -1
-			if msg.GetNoteOn(&ch, &key, &vel) {
-				k = int(key)
-			}
+			k := pr.MsgID(msg)
 			m.mu.Lock()
 			m.got = append(m.got, pr.Dlv{L: id, M: k})
 			m.mu.Unlock()
-		})
+		}, lo...)
 		if err == nil {
 			m.stop = stop
 		}
@@ -156,7 +162,7 @@ func (m *mdrv) Call(fn string, msg int) (ret string) {
 		}
 		ret = "nil"
 	case "Send":
-		err := m.out.Send(midi.NoteOn(0, uint8(msg), 64))
+		err := m.out.Send(pr.MsgBytes(msg))
 		if err == nil {
 			atomic.AddInt64(&m.sentOK, 1)
 		}
@@ -176,7 +182,7 @@ func (m *mdrv) Par(msgs [][]int) []string {
 		go func(i int, q []int) {
 			defer wg.Done()
 			for _, x := range q {
-				err := m.out.Send(midi.NoteOn(0, uint8(x), 64))
+				err := m.out.Send(pr.MsgBytes(x))
 				if err == nil {
 					atomic.AddInt64(&m.sentOK, 1)
 				}
@@ -239,7 +245,11 @@ func genHistory(r *rand.Rand, id, n int) pr.History {
 			outOpen = false
 		case k < 12:
 			if !active {
-				h.Steps = append(h.Steps, pr.Step{Fn: "Listen"})
+				if r.Intn(2) == 0 {
+					h.Steps = append(h.Steps, pr.Step{Fn: "Listen"})
+				} else { // C14: the driver's own copy of the option filter
+					h.Steps = append(h.Steps, pr.Step{Fn: "ListenOpts", Opts: pr.Opts{Sysex: r.Intn(2) == 0, As: r.Intn(2) == 0, Tc: r.Intn(2) == 0}})
+				}
 				active, inOpen = true, true
 				lastL++
 			}
@@ -249,7 +259,9 @@ func genHistory(r *rand.Rand, id, n int) pr.History {
 				active = false
 			}
 		case k < 18:
-			if next <= 120 {
+			if r.Intn(3) == 0 { // a message of one of the three filterable classes
+				h.Steps = append(h.Steps, pr.Step{Fn: "Send", M: []int{240, 248, 254}[r.Intn(3)]})
+			} else if next <= 120 {
 				h.Steps = append(h.Steps, pr.Step{Fn: "Send", M: next})
 				next++
 			}
@@ -270,6 +282,34 @@ func genHistory(r *rand.Rand, id, n int) pr.History {
 		}
 	}
 	return h
+}
+
+// genFilterPair: the same sends under an option set with something off and under all options on (C14, the
+// driver's own copy of the filter): OpenOut, ListenOpts(o), sends of notes and of the three filterable classes, Stop.
+func genFilterPair(r *rand.Rand, id int) (pr.History, pr.History) {
+	o := pr.Opts{Sysex: r.Intn(2) == 0, As: r.Intn(2) == 0, Tc: r.Intn(2) == 0}
+	if o.Sysex && o.As && o.Tc {
+		o = pr.Opts{Sysex: r.Intn(2) == 0, As: false, Tc: r.Intn(2) == 0}
+	}
+	mk := func(op pr.Opts, id int) pr.History {
+		return pr.History{ID: id, Kind: "midicat", Steps: []pr.Step{{Fn: "OpenOut"}, {Fn: "ListenOpts", Opts: op}}}
+	}
+	a, b := mk(o, 2*id), mk(pr.Opts{Sysex: true, As: true, Tc: true}, 2*id+1)
+	next := 1
+	for i := 0; i < 6+r.Intn(12); i++ {
+		var st pr.Step
+		if r.Intn(2) == 0 {
+			st = pr.Step{Fn: "Send", M: []int{240, 248, 254}[r.Intn(3)]}
+		} else {
+			st = pr.Step{Fn: "Send", M: next}
+			next++
+		}
+		a.Steps = append(a.Steps, st)
+		b.Steps = append(b.Steps, st)
+	}
+	a.Steps = append(a.Steps, pr.Step{Fn: "Stop"})
+	b.Steps = append(b.Steps, pr.Step{Fn: "Stop"})
+	return a, b
 }
 
 func runOne(h *pr.History, w *hx.Writer) bool {
@@ -313,6 +353,15 @@ func main() {
 		for i := 0; i < *n; i++ {
 			h := genHistory(r, i, 5+r.Intn(*steps))
 			if !runOne(&h, w) {
+				w.Close()
+				os.Exit(0)
+			}
+		}
+	case "filter":
+		r := rand.New(rand.NewSource(*seed))
+		for i := 0; i < *n; i++ {
+			a, b := genFilterPair(r, i)
+			if !runOne(&a, w) || !runOne(&b, w) {
 				w.Close()
 				os.Exit(0)
 			}
